@@ -13,5 +13,27 @@ out = kani_run.run(os.environ.get('VERIF_REPO', '/repo'), 'setup',
                    [{'id': 'footer::verif_kani::footer_size_constant'}], jobs=1, harness_timeout=600)
 print('setup: kani warm-up', [o['status'] for o in out.obligations], out.undecided, '%.0fs' % out.wall)
 PY
+# warm the native test build used by the bounded native stand-in of C05 and by the replay drivers (cache only)
+python3 - <<'PY'
+import sys, os, time
+sys.path.insert(0, 'lib')
+import native
+t = time.time()
+out, err = native._run_driver(os.environ.get('VERIF_REPO', '/repo'), 'wal', None, 0, timeout=2400, extra_env={'VERIF_WAL_MAX_DEPTH': '1'})
+import re
+m = re.search(r'VERIF-[A-Z-]+[^\n]*', out or '')
+print('setup: native warm-up %.0fs %s' % (time.time() - t, (m.group(0)[:120] if m else err)))
+PY
+# warm the native `cargo kani playback` build used to replay Kani counterexamples on the real code (cache only)
+python3 - <<'PY'
+import sys, os, time
+sys.path.insert(0, 'lib')
+import playback
+t = time.time()
+cex = {'test_name': 'kani_concrete_playback_warm',
+       'test_code': '#[test]\nfn kani_concrete_playback_warm() {\n    let concrete_vals: Vec<Vec<u8>> = vec![];\n    kani::concrete_playback_run(concrete_vals, footer_size_constant);\n}\n'}
+ok, text = playback.run_native(os.environ.get('VERIF_REPO', '/repo'), 'footer::verif_kani::footer_size_constant', cex, 'setup')
+print('setup: playback warm-up %.0fs reproduced=%s %s' % (time.time() - t, ok, text[:100]))
+PY
 verus --version >/dev/null 2>&1 && echo "setup: verus ok"
 exit 0
